@@ -9,6 +9,12 @@ import (
 
 const additionalProperties = "AdditionalProperties"
 
+// isAdditionalPropertiesField tells the field that collects the additional properties of an
+// object apart from a declared property that happens to be called "additionalProperties".
+func isAdditionalPropertiesField(f codegen.StructField) bool {
+	return f.Name == additionalProperties && f.JSONName == ""
+}
+
 func sortedKeys[T any](props map[string]T) []string {
 	names := make([]string, 0, len(props))
 	for name := range props {
